@@ -27,6 +27,12 @@ def make_graphs(cfg):
     if st == "mixed":
         ds = Dataset()
         return Graph(), ds.graph(BNode("gB"))
+    if st == "same_id":
+        # two graphs in separate stores that carry the same identifier (two versions of one named graph)
+        return Graph(identifier=URIRef("urn:g:same")), Graph(identifier=URIRef("urn:g:same"))
+    if st == "same_id_shared_default":
+        d1, d2 = Dataset(), Dataset()
+        return d1.default_graph, d2.default_graph
     raise ValueError(st)
 
 
@@ -60,6 +66,16 @@ def replay(cfg, events):
                 e["res"] = {"k": "ok"}
             elif op == "remove":
                 G[e["g"]].remove(trip(e["pat"]))
+                e["res"] = {"k": "ok"}
+            elif op == "batch":
+                # BatchAddGraph: every triple handed over has been added when the context manager exits
+                from rdflib.graph import BatchAddGraph
+                with BatchAddGraph(G[e["g"]], batch_size=e["size"], batch_addn=e.get("addn", False)) as b:
+                    for t in e["ts"]:
+                        if e.get("addn"):
+                            b.addN([trip(t) + (G[e["g"]],)])
+                        else:
+                            b.add(trip(t))
                 e["res"] = {"k": "ok"}
             elif op == "set":
                 G[e["g"]].set(trip(e["t"]))
